@@ -283,3 +283,102 @@ Definition u_kemeny (a : sx) : sx :=
                 | _, _ => bad_input end
   | _ => bad_input
   end.
+
+(* ------------------------------------------------------------------ C20 *)
+From VL Require Import Model.Validate.
+
+(* pyobj wire: (0 kind id) cand ; (1 n d) number ; (2) None ; (3 items..) tuple ; (4 items..) frozenset ; (5 items..) list
+   kind: 0 str 1 person-independent 2 person-with-party 3 party 4 coalition 5 blank *)
+Fixpoint as_obj_fuel (f : nat) (s : sx) : option pyobj :=
+  match f with
+  | O => None
+  | S f' =>
+      match s with
+      | L [A 0; A k; A (Zpos i)] =>
+          match k with
+          | 0 => Some (OCand KStr i) | 1 => Some (OCand (KPerson false) i) | 2 => Some (OCand (KPerson true) i)
+          | 3 => Some (OCand KParty i) | 4 => Some (OCand KCoalition i) | 5 => Some (OCand KBlank i)
+          | _ => None
+          end
+      | L [A 1; A n; A (Zpos d)] => Some (ONum n d)
+      | L [A 2] => Some ONone
+      | L (A 3 :: items) => match opt_map (as_obj_fuel f') items with Some l => Some (OTuple l) | None => None end
+      | L (A 4 :: items) => match opt_map (as_obj_fuel f') items with Some l => Some (OFrozen l) | None => None end
+      | L (A 5 :: items) => match opt_map (as_obj_fuel f') items with Some l => Some (OList l) | None => None end
+      | _ => None
+      end
+  end.
+Definition as_obj := as_obj_fuel 10.
+
+Definition as_nominator (s : sx) : option nominator :=
+  match s with
+  | L [A 0; a] => match as_bool a with Some a => Some (NBasic a) | None => None end
+  | L [A 1; a; b] => match as_bool a, as_bool b with Some a, Some b => Some (NPerson a b) | _, _ => None end
+  | L [A 2; a; b] => match as_bool a, as_bool b with Some a, Some b => Some (NParty a b) | _, _ => None end
+  | _ => None
+  end.
+Definition as_bounds (s : sx) : option bounds :=
+  match s with
+  | L [lo; hi] => match as_opt as_Q lo, as_opt as_Q hi with Some lo, Some hi => Some (lo, hi) | _, _ => None end
+  | _ => None
+  end.
+Definition as_keyed (s : sx) : option keyed_bounds :=
+  match s with
+  | L [m; d] => match as_listof (as_pair as_Z as_bounds) m, as_bounds d with
+                | Some m, Some d => Some (m, d) | _, _ => None end
+  | _ => None
+  end.
+Definition of_vresult (r : vresult) : sx :=
+  match r with VOk => ok (L []) | VVoteError => err E_VOTE | VCandError => err E_CAND | VCrash => err E_TYPE end.
+
+Inductive vcfg :=
+| CSimple (nm : nominator)
+| CApproval (nm : nominator) (cnt : bounds)
+| CRanked (nm : nominator) (tot : bounds) (ranks : keyed_bounds)
+| CScore (nm : nominator) (nsc : bounds) (sums : keyed_bounds) (rule : score_rule).
+
+Definition as_vcfg (s : sx) : option vcfg :=
+  match s with
+  | L [A 0; nm] => match as_nominator nm with Some nm => Some (CSimple nm) | None => None end
+  | L [A 1; nm; c] => match as_nominator nm, as_bounds c with Some nm, Some c => Some (CApproval nm c) | _, _ => None end
+  | L [A 2; nm; t; r] => match as_nominator nm, as_bounds t, as_keyed r with
+                         | Some nm, Some t, Some r => Some (CRanked nm t r) | _, _, _ => None end
+  | L [A 3; nm; n; su; L lv] =>
+      match as_nominator nm, as_bounds n, as_keyed su, opt_map as_obj lv with
+      | Some nm, Some n, Some su, Some lv => Some (CScore nm n su (SEnum lv)) | _, _, _, _ => None end
+  | L [A 4; nm; n; su; rb] =>
+      match as_nominator nm, as_bounds n, as_keyed su, as_bounds rb with
+      | Some nm, Some n, Some su, Some rb => Some (CScore nm n su (SRange rb)) | _, _, _, _ => None end
+  | _ => None
+  end.
+
+Definition run_validate (c : vcfg) (o : pyobj) : vresult :=
+  match c with
+  | CSimple nm => validate_simple nm o
+  | CApproval nm cnt => validate_approval nm cnt o
+  | CRanked nm t r => validate_ranked nm t r o
+  | CScore nm n su rule => validate_score nm n su rule o
+  end.
+
+(* args: (cfg obj) *)
+Definition u_validate (a : sx) : sx :=
+  match a with
+  | L [c; o] => match as_vcfg c, as_obj o with
+                | Some c, Some o => of_vresult (run_validate c o)
+                | _, _ => bad_input end
+  | _ => bad_input
+  end.
+
+(* args: (cfg ((obj count) ...)) -> indices of kept ballots *)
+Definition u_eliminate (a : sx) : sx :=
+  match a with
+  | L [c; vs] => match as_vcfg c, as_dict as_obj as_Z vs with
+                 | Some c, Some votes =>
+                     match eliminate (run_validate c) votes with
+                     | EOk kept => ok (L (map (fun kv => A (snd kv)) kept))
+                     | ECandError => err E_CAND
+                     | ECrash => err E_TYPE
+                     end
+                 | _, _ => bad_input end
+  | _ => bad_input
+  end.
